@@ -36,6 +36,16 @@ def _apply(index: Index, w: dict) -> Index | None:
         src = files.get(rel, index.modules[rel].source)
         if src.count(e["old"]) < 1:
             return None
+        if "nth" in e:
+            # replace the n-th (0-based) occurrence only
+            pos = -1
+            for _ in range(e["nth"] + 1):
+                pos = src.find(e["old"], pos + 1)
+                if pos < 0:
+                    return None
+            src = src[:pos] + e["new"] + src[pos + len(e["old"]) :]
+            files[rel] = src
+            continue
         if e.get("count", 1) == 1 and src.count(e["old"]) != 1 and not e.get("first"):
             return None
         src = src.replace(e["old"], e["new"], 1 if e.get("first") or e.get("count", 1) == 1 else -1)
